@@ -45,6 +45,7 @@ inductive Ev | requested | failed | established | connected | fully | disconnect
 inductive Out
   | cb (e : Ev)
   | linkFailed          -- `_link_error_cb` entered (environment event, recorded for the specification)
+  | closeCalled         -- `close_link` called from inside a callback of the incoming thread (for the specification)
   | openReturned        -- SyncCrazyflie.open_link returned
   | openRaised          -- SyncCrazyflie.open_link raised Exception(error message)
   | openAlreadyOpen     -- SyncCrazyflie.open_link raised 'Link already open'
@@ -112,6 +113,10 @@ structure S where
   logGot : Nat := 0                     -- ghost: log TOC entries received in this attempt
   extGot : Nat := 0                     -- ghost: extended types received in this attempt
   dead : Bool := false                  -- `cf.link` is a driver that already reported its error (during connect())
+  fixAbort : Bool := Gen.C02.abortedTocFetcherCannotFinish   -- constant: an aborted TocFetcher never runs its finished callback
+  fixFirst : Bool := Gen.C02.firstPacketCbChecksLink         -- constant: the first-packet callback ignores a packet whose link is gone (D26)
+  cbLate : Bool := false                -- `_check_for_initial_packet_cb` was re-registered by open_link: it now runs AFTER the
+                                        -- application's all-packet callbacks (it was first when the constructor registered it)
   fixD21 : Bool := Gen.C02.extFetcherAbortsOnDisconnect   -- constant: the code has repair D21 (from the source)
   deriving DecidableEq, Repr, Inhabited
 
@@ -303,17 +308,88 @@ def openLink (drv : Drv) (s : S) : R :=
     let s := { s with st := .init }
     match drv with
     | .missing => emit .failed { s with link := false, dead := false, stage := .idle }
-    | .ok => send (some .src) { s with link := true, dead := false, inq := [], initCb := true, stage := .src }
+    | .ok => send (some .src) { s with link := true, dead := false, inq := [], initCb := true, stage := .src,
+                                       cbLate := s.cbLate || !s.initCb }
     | .failing =>
         -- `_link_error_cb` runs while get_link_driver() has not returned (cf.link is still the old value); then the
         -- driver is stored and the set-up is started on the dead link
         linkErrorCb s >>> fun s =>
-          send (some .src) { s with link := true, dead := true, inq := [], initCb := true, stage := .src }
+          send (some .src) { s with link := true, dead := true, inq := [], initCb := true, stage := .src,
+                                    cbLate := s.cbLate || !s.initCb }
 
 /-- `Crazyflie.close_link` -/
 def closeLink (s : S) : R :=
   send none s >>> fun s =>
     disconnectedCall { s with link := false, dead := false, inq := [] } >>> fun s => pureS { s with st := .disc }
+
+/-! ### close / link error from INSIDE a callback of the incoming thread, during the dispatch of a packet
+
+The application registers its callbacks after the `Crazyflie` object is built: its all-packet callback runs after
+`_check_for_initial_packet_cb` and before the port callbacks (whose snapshot `list(self.cb)` is taken afterwards);
+its port callback runs after the library's static port callbacks (platform, log, memory, parameter updater) and
+BEFORE the fetchers registered during the connection (TocFetcher, _ExtendedTypeFetcher), which are in the
+dispatcher's snapshot for this packet even when the action unregisters them. -/
+
+/-- where the application's callback sits -/
+inductive Pos | allPkt | port
+  deriving DecidableEq, Repr, Inhabited
+
+/-- what it does -/
+inductive Act | close | err
+  deriving DecidableEq, Repr, Inhabited
+
+/-- packets handled by a fetcher that was registered during the connection -/
+def Pkt.isDynamic : Pkt → Bool
+  | .logInfo | .logItem _ | .parInfo | .parItem _ | .ext _ => true
+  | _ => false
+
+/-- `p` is the packet that completes the parameter TOC in stage `st` -/
+def completesParToc (d : Dev) (st : Stage) (p : Pkt) : Bool :=
+  match st, p with
+  | .parInfo, .parInfo => d.nPar = 0
+  | .parItem i, .parItem j => i = j ∧ ¬ (i < d.nPar - 1)
+  | _, _ => false
+
+/-- the aborted log fetcher still stores the element it was waiting for (`cf.log.toc` is not dropped on disconnect) -/
+def logItemAccepted (st : Stage) (p : Pkt) : Bool :=
+  match st, p with
+  | .logItem i, .logItem j => i = j
+  | _, _ => false
+
+/-- the action: `cf.close_link()`, or the driver's error report while the link is still there -/
+def actNow (a : Act) (s : S) : R :=
+  match a with
+  | .close => (s, [.closeCalled]) >>> closeLink
+  | .err => if s.link ∧ ¬ s.dead then linkErrorCb s else pureS s
+
+/-- the packet is taken, the all-packet callbacks run (first-packet callback), nothing else yet -/
+def popInitial (s : S) (rest : List Pkt) : R :=
+  let s0 := { s with inq := rest }
+  if s0.initCb then emit .established { s0 with st := .conn, initCb := false } else pureS s0
+
+/-- dispatch of one packet during which the application's callback at `pos` performs `a` -/
+def deliverAct (d : Dev) (pos : Pos) (a : Act) (s : S) : R :=
+  if ¬ s.link then pureS s else
+  match s.inq with
+  | [] => pureS s
+  | p :: rest =>
+    match pos with
+    | .allPkt =>
+        -- the port callbacks run afterwards on a snapshot without the fetchers; the static ones find no link and no
+        -- pending callback: nothing observable
+        if s.initCb ∧ s.cbLate then
+          -- first packet of a later connection: the first-packet callback comes after the application's callback
+          actNow a { s with inq := rest } >>> fun s' =>
+            if s.fixFirst then pureS s'                   -- repaired (D26): `if self.link is None: return`
+            else emit .established { s' with st := .conn, initCb := false }
+        else popInitial s rest >>> actNow a
+    | .port =>
+        if p.isDynamic then
+          -- the fetcher is aborted by the action and still gets the packet (snapshot): it must not advance the set-up
+          (popInitial s rest >>> actNow a) >>> fun s' =>
+            let s' := if logItemAccepted s.stage p then { s' with logGot := s'.logGot + 1 } else s'
+            if ¬ s.fixAbort ∧ completesParToc d s.stage p then paramTocDone d s' else pureS s'
+        else deliver d s >>> actNow a
 
 /-! ### SyncCrazyflie -/
 
@@ -368,6 +444,7 @@ def Sys.init : Sys := {}
 
 inductive Op
   | open (drv : Drv) | deliver | work | err | arm | close | syncOpen (drv : Drv) | syncClose
+  | deliverAct (pos : Pos) (a : Act)
   deriving DecidableEq, Repr, Inhabited
 
 /-- an operation on the `Crazyflie` object; the wrapper's callbacks see the calls, then a blocked call may resume -/
@@ -382,6 +459,7 @@ def step (d : Dev) (s : Sys) : Op → Sys × List Out
   | .err => lift s.w (linkErrorCb s.c)
   | .arm => ({ s with c := { s.c with armed := true } }, [])
   | .close => lift s.w (closeLink s.c)
+  | .deliverAct pos a => lift s.w (deliverAct d pos a s.c)
   | .syncOpen f =>
       -- `SyncCrazyflie.open_link` up to the wait
       if s.w.isOpen then (s, [.openAlreadyOpen])
@@ -418,6 +496,11 @@ def allowed (s : Sys) : Op → Bool
   | .close => ¬ s.w.waitClose
   | .deliver => true
   | .work => true
+  -- outside the model: an action in the application's ALL-PACKET callback while the acknowledgement of the log reset is
+  -- dispatched (the static `Log._new_packet_cb` that runs afterwards starts a TOC download on the closed object; the
+  -- left-over fetcher duplicates the requests of the next connection - checked directly on the real code by search())
+  | .deliverAct .allPkt _ => ¬ (s.c.link ∧ ¬ s.c.dead ∧ s.c.stage = .logReset)
+  | .deliverAct .port _ => true
 
 def usage (d : Dev) : Sys → List Op → Bool
   | _, [] => true
